@@ -8,6 +8,17 @@ HERE = os.path.dirname(os.path.dirname(os.path.abspath(__file__)))
 ALL = ["C%02d" % i for i in range(1, 21)]
 
 CHECKS = {
+ "C20": dict(
+  category="exploration",
+  text="Reference-model + conservation monitor on recorded (a, b, op, result, a', b') tuples from the real generated Equals / "
+       "TryToCopyFrom (ASan+UBSan builds): Equals vs the model's logical equality (presence pattern and every present physical "
+       "field, recursively, element-wise; floats by IEEE ==; bits no field covers ignored) and symmetry, on pairs that are "
+       "identical / differ in one covered bit / differ only in uncovered bits / differ in length / unrelated; TryToCopyFrom result, "
+       "destination's first n bytes = source's, rest untouched, source untouched, destination Ok and Equals source; overlapping "
+       "views inside one allocation against a memmove model.",
+  note="Both views get the same parameter values; Equals is only invoked when both are Ok; Ok() disagreements are left to C01.",
+  technique="runtime reference-model + byte-conservation monitor on sanitizer builds",
+  design_ref="5/C20"),
  "C01": dict(
   category="exploration",
   text="Reference-model monitor: for generated modules (semantic generator: byte orders, enums, bits and anonymous bits, nested "
